@@ -21,6 +21,7 @@ pub mod c16;
 pub mod c17;
 pub mod c18;
 pub mod c19;
+pub mod c20;
 
 pub fn dispatch(run: &mut Run, extra: &[String]) -> bool {
     match run.prop.as_str() {
@@ -43,6 +44,7 @@ pub fn dispatch(run: &mut Run, extra: &[String]) -> bool {
         "C17" => c17::run(run),
         "C18" => c18::run(run),
         "C19" => c19::run(run, extra),
+        "C20" => c20::run(run),
         _ => return false,
     }
     true
